@@ -21,6 +21,7 @@ CHECKS = {
  "C05": ("E3", "3 (C05), 2.2 (E3)", "explicit-state search over every history up to the depth bound of activations/deactivations (any order), with-blocks (LIFO, normal and exceptional exit), refused activations and calls, replayed on the real API: every active probe receives exactly the model's events, inactive ones none; counters, installed code, handler collection, module globals and global_probes are clean whenever the model says so", "states are merged on a canonical key of the implementation state (audited in the thorough tier); error states are not expanded"),
  "C06": ("E1", "3 (C06)", "for every control-flow skeleton and generator driver sequence of the bounded space the merged meta-event stream equals the twin's explicit try/except/finally log and satisfies the bracket grammar", "GeneratorExit #error on close/drop and multi-variable loop bracket order are not asserted"),
  "C07": ("E2", "3 (C07)", "for every call tree (optionally with a raising node) and every focus-free selector, and every focused selector forced to total mode, the records delivered at each root exit equal the RSS total semantics", "records are attributed to exits by their position in the program's own activation log"),
+ "C08": ("E4", "3 (C08), 2.2 (E4)", "every interleaving, up to the preemption bound, of two (three) real threads that activate their own probe on shared functions, call them and deactivate, with scheduling points at every line (critical configuration: every bytecode) of the ptera functions touching cross-thread state and library locks replaced by cooperative ones: per-thread events and results equal the sequential reference, no exception, no deadlock, clean state after join", "Python-level interleavings under the GIL inside the listed functions only; schedules are replayed deterministically (divergence = exit 2)"),
  "C09": ("E3", "3 (C09)", "explicit-state search over every history up to the depth bound of overlay enter/leave, generator create/next/close/drop and driver calls, executed at top level and inside an instrumented driver: the handlers installed for the driver always equal the entered overlays, generator-ancestor selectors never fire for driver calls, driver-ancestor selectors fire exactly once", "events caused by calls made from generator bodies are not asserted; refcounting finalisation"),
  "C10": ("E1", "3 (C10)", "for every program of the bounded space and every identifier (symtable names, fresh names, #meta names) activation succeeds with the provenance Python's symtable implies, or is refused with SelectorError; plus a battery of unresolvable / non-function targets", "symtable is the scoping oracle; comprehension variables and nested-scope-only identifiers are not asserted"),
  "C11": ("E1", "3 (C11)", "for every placement of tag annotations (string and object spelling, orders, repetition) on <=3/4 sites and every tag selector, the raw stream, the instrumented set and function-tag matching equal the generator's tag map; tag-set algebra exhaustively over <=4 tags of a 4-tag alphabet", "each variable annotated at most once; string spelling only for parameters and annotated assignments"),
